@@ -12,6 +12,7 @@ mod props;
 mod report;
 mod shapes;
 mod tape;
+mod transform;
 
 use report::*;
 
@@ -29,6 +30,7 @@ fn table(id: &str) -> Option<(RunFn, ReplayFn)> {
         "C06" => (props::c06::run, props::c06::replay),
         "C07" => (props::c07::run, props::c07::replay),
         "C08" => (props::c08::run, props::c08::replay),
+        "C09" => (props::c09::run_check, props::c09::replay),
         "C15" => (props::c15::run, props::c15::replay),
         _ => return None,
     })
